@@ -156,7 +156,7 @@ fn code_map_routes(cm: &CodeMap) -> Option<String> {
 	if sl.len() != cm.len() {
 		return Some("as_ref".into());
 	}
-	iter_routes(&|| cm.iter().map(|(i, e)| json!([i, t(e)])))
+	iter_routes(&|| cm.iter(), &|(i, e)| json!([i, t(e)]))
 }
 
 /// All entry points on a `str` input under options `o`.
@@ -282,6 +282,12 @@ fn check_lookups(rep: &mut Report, ctx: &J, v: &Value) {
 					let idx: Vec<usize> = o.indexes_of(k).collect();
 					let vals_ok = o.get(k).map(project).collect::<Vec<_>>() == scan.iter().map(|&i| project(&o.entries()[i].value)).collect::<Vec<_>>();
 					let ents: Vec<usize> = o.get_entries_with_index(k).map(|(i, _)| i).collect();
+					let route = iter_routes(&|| o.indexes_of(k), &|i| json!(i))
+						.or_else(|| iter_routes(&|| o.get(k), &|v| project(v)))
+						.or_else(|| iter_routes(&|| o.get_entries_with_index(k), &|(i, _)| json!(i)));
+					if let Some(route) = route {
+						rep.mismatch("C02.lookup", json!({"what": "key lookup on a parsed object: consuming the lookup iterator this way does not give the entries next() gives", "input": ctx, "key": k, "route": route}));
+					}
 					if idx != scan || !vals_ok || ents != scan || o.contains_key(k) != !scan.is_empty() || o.index_of(k) != scan.first().copied() {
 						rep.mismatch("C02.lookup", json!({"what": "key lookup on a parsed object differs from a scan of its entries", "input": ctx, "key": k, "scan": scan, "indexes_of": idx}));
 					}
@@ -444,11 +450,26 @@ pub fn replay_parse(rep: &mut Report, rec: &J) {
 				let ectx = json!({"w": str_to_cps(&t), "text": show(&t), "o": rec["o"], "extension_of": w, "vector": {"k": "parse", "w": str_to_cps(&t), "o": rec["o"], "out": exp}});
 				compare_outcome(rep, &ectx, "parse_str_with (input extended beyond the decided error)", exp, &r, strict);
 			};
+			// when the outcome was decided before the tree's fixed suffix, the tokens are also inserted before the suffix
+			// (e.g. before the closing quote of the string the trees of string elements live in)
+			let sfx = rec.get("sfx").and_then(|x| x.as_u64()).unwrap_or(0) as usize;
+			let split = if rec.get("dec").and_then(|d| d.as_bool()) == Some(true) && sfx > 0 {
+				let cs: Vec<char> = s.chars().collect();
+				Some((cs[..cs.len() - sfx].iter().collect::<String>(), cs[cs.len() - sfx..].iter().collect::<String>()))
+			} else {
+				None
+			};
 			for t1 in &toks {
 				check(rep, format!("{s}{t1}"));
+				if let Some((head, tail)) = &split {
+					check(rep, format!("{head}{t1}{tail}"));
+				}
 				if deep {
 					for t2 in &toks {
 						check(rep, format!("{s}{t1}{t2}"));
+						if let Some((head, tail)) = &split {
+							check(rep, format!("{head}{t1}{t2}{tail}"));
+						}
 					}
 				}
 			}
